@@ -1,6 +1,15 @@
 import Driver.Common
 import AranyaV.Model.Queue
-/-! Driver for the traversal-queue model (C21). -/
+import AranyaV.Model.QueueIdx
+/-! Driver for the traversal-queue models (C21).
+
+State = the two-list model (`Queue`, answers every request) next to the index-level model
+(`IQ`: `entries` + `partition`, with the swap arithmetic of the Rust code).  Every request is run
+on both; if the index-level model fails (`bug`/`oob`/`fuel` — proved unreachable) or its
+observable answer differs from the two-list answer, the answer line is marked, which shows up as
+a model-vs-real disagreement.  `dbg` prints the exact internal state of the index-level model
+(`p=<partition> [seg:mc,...]` in index order), compared with the `Debug` dump of the real
+`TraversalQueue`. -/
 open AranyaV.Queue
 
 def showLoc (l : Loc) : String := s!"{l.seg}:{l.mc}"
@@ -10,35 +19,93 @@ def showLocs (ls : List Loc) : String :=
   let sorted := ls.toArray.qsort (fun a b => a.ble b && a != b) |>.toList
   if sorted.isEmpty then "[]" else "[" ++ ",".intercalate (sorted.map showLoc) ++ "]"
 
-def step (q : Queue) (toks : List String) : Queue × String :=
-  match toks with
-  | ["new"] => (Queue.new, "ok")
-  | ["clear"] => (q.clear, "ok")
-  | ["push", s, m] => match s.toNat?, m.toNat? with
-    | some s, some m => (q.push ⟨m, s⟩, "ok")
-    | _, _ => (q, "bad-op")
-  | ["pushc", s, m, c] => match s.toNat?, m.toNat?, Driver.bool? c with
-    | some s, some m, some c => (q.pushCovered ⟨m, s⟩ c, "ok")
-    | _, _, _ => (q, "bad-op")
-  | ["pushdup", s, m] => match s.toNat?, m.toNat? with
-    | some s, some m => (q.pushDuplicate ⟨m, s⟩, "ok")
-    | _, _ => (q, "bad-op")
-  | ["pop"] => let (r, q') := q.pop
-    (q', match r with | none => "none" | some l => showLoc l)
-  | ["popc"] => let (r, q') := q.popCovered
-    (q', match r with | none => "none" | some (l, c) => s!"{showLoc l} {if c then 1 else 0}")
-  | ["peek"] => (q, match q.peek with | none => "none" | some l => showLoc l)
-  | ["popdups"] => let (r, q') := q.popDuplicates
-    (q', match r with | none => "none" | some (l, n) => s!"{showLoc l} {n}")
-  | ["allcov"] => (q, if q.allCovered then "1" else "0")
-  | ["isempty"] => (q, if q.isEmpty then "1" else "0")
-  | ["drainabove", t] => match t.toNat? with
-    | some t => let (e, q') := q.drainAbove t; (q', showLocs e)
-    | none => (q, "bad-op")
-  | ["drainall"] => let (e, q') := q.drainAll; (q', showLocs e)
-  | ["coverupto", s, c, l] => match s.toNat?, c.toNat?, l.toNat? with
-    | some s, some c, some l => (q.coverUpTo s c l, "ok")
-    | _, _, _ => (q, "bad-op")
-  | _ => (q, "bad-op")
+/-- exact rendering (index order) -/
+def showLocsExact (ls : List Loc) : String :=
+  if ls.isEmpty then "[]" else "[" ++ ",".intercalate (ls.map showLoc) ++ "]"
 
-def main : IO Unit := Driver.run step Queue.new
+def showFail : Fail → String
+  | .bug => "bug"
+  | .oob => "oob"
+  | .fuel => "fuel"
+
+abbrev St := Queue × Except Fail IQ
+
+/-- combine: `ans` from the two-list model, `ians` from the index-level one -/
+def both (q' : Queue) (ans : String) (r : Except Fail (IQ × String)) : St × String :=
+  match r with
+  | .ok (i', ians) => ((q', .ok i'), if ians == ans then ans else s!"{ans} !idx:{ians}")
+  | .error e => ((q', .error e), s!"{ans} !idx-fail:{showFail e}")
+
+/-- run an index-level step, or propagate an earlier failure -/
+def onIdx (i : Except Fail IQ) (f : IQ → Except Fail (IQ × String)) : Except Fail (IQ × String) :=
+  match i with
+  | .ok iq => f iq
+  | .error e => .error e
+
+def okStep (r : Except Fail IQ) : Except Fail (IQ × String) :=
+  match r with
+  | .ok i' => .ok (i', "ok")
+  | .error e => .error e
+
+def step (st : St) (toks : List String) : St × String :=
+  let (q, i) := st
+  match toks with
+  | ["new"] => ((Queue.new, .ok IQ.new), "ok")
+  | ["clear"] => both q.clear "ok" (onIdx i fun iq => .ok (iq.clear, "ok"))
+  | ["push", s, m] => match s.toNat?, m.toNat? with
+    | some s, some m => both (q.push ⟨m, s⟩) "ok" (onIdx i fun iq => okStep (iq.push ⟨m, s⟩))
+    | _, _ => (st, "bad-op")
+  | ["pushc", s, m, c] => match s.toNat?, m.toNat?, Driver.bool? c with
+    | some s, some m, some c =>
+      both (q.pushCovered ⟨m, s⟩ c) "ok" (onIdx i fun iq => okStep (iq.pushCovered ⟨m, s⟩ c))
+    | _, _, _ => (st, "bad-op")
+  | ["pushdup", s, m] => match s.toNat?, m.toNat? with
+    | some s, some m =>
+      both (q.pushDuplicate ⟨m, s⟩) "ok" (onIdx i fun iq => okStep (iq.pushDuplicate ⟨m, s⟩))
+    | _, _ => (st, "bad-op")
+  | ["pop"] => let (r, q') := q.pop
+    let sh := fun (r : Option Loc) => match r with | none => "none" | some l => showLoc l
+    both q' (sh r) (onIdx i fun iq => match iq.pop with
+      | .ok (r, i') => .ok (i', sh r)
+      | .error e => .error e)
+  | ["popc"] => let (r, q') := q.popCovered
+    let sh := fun (r : Option (Loc × Bool)) => match r with
+      | none => "none" | some (l, c) => s!"{showLoc l} {if c then 1 else 0}"
+    both q' (sh r) (onIdx i fun iq => match iq.popCovered with
+      | .ok (r, i') => .ok (i', sh r)
+      | .error e => .error e)
+  | ["peek"] =>
+    let sh := fun (r : Option Loc) => match r with | none => "none" | some l => showLoc l
+    both q (sh q.peek) (onIdx i fun iq => .ok (iq, sh iq.peek))
+  | ["popdups"] => let (r, q') := q.popDuplicates
+    let sh := fun (r : Option (Loc × Nat)) => match r with
+      | none => "none" | some (l, n) => s!"{showLoc l} {n}"
+    both q' (sh r) (onIdx i fun iq => match iq.popDuplicates with
+      | .ok (r, i') => .ok (i', sh r)
+      | .error e => .error e)
+  | ["allcov"] =>
+    both q (if q.allCovered then "1" else "0")
+      (onIdx i fun iq => .ok (iq, if iq.allCovered then "1" else "0"))
+  | ["isempty"] =>
+    both q (if q.isEmpty then "1" else "0")
+      (onIdx i fun iq => .ok (iq, if iq.isEmpty then "1" else "0"))
+  | ["drainabove", t] => match t.toNat? with
+    | some t => let (e, q') := q.drainAbove t
+      both q' (showLocs e) (onIdx i fun iq => match iq.drainAbove t with
+        | .ok (e, i') => .ok (i', showLocs e)
+        | .error e => .error e)
+    | none => (st, "bad-op")
+  | ["drainall"] => let (e, q') := q.drainAll
+    both q' (showLocs e) (onIdx i fun iq => match iq.drainAll with
+      | .ok (e, i') => .ok (i', showLocs e)
+      | .error e => .error e)
+  | ["coverupto", s, c, l] => match s.toNat?, c.toNat?, l.toNat? with
+    | some s, some c, some l =>
+      both (q.coverUpTo s c l) "ok" (onIdx i fun iq => okStep (iq.coverUpTo s c l))
+    | _, _, _ => (st, "bad-op")
+  | ["dbg"] => match i with
+    | .ok iq => (st, s!"p={iq.part} {showLocsExact iq.entries}")
+    | .error e => (st, s!"idx-fail:{showFail e}")
+  | _ => (st, "bad-op")
+
+def main : IO Unit := Driver.run step ((Queue.new, .ok IQ.new) : St)
